@@ -4,6 +4,7 @@ import GdVerif.Run.GenValve
 import GdVerif.Run.Gs3
 import GdVerif.Run.Jc2m
 import GdVerif.Run.GenGs3
+import GdVerif.Run.GenJc2m
 /-
   gdmodel: the model behind a line protocol.
     gdmodel run        : reads `<id> <entry> <args…>` lines on stdin, prints `<id> <outcome>`
@@ -39,6 +40,7 @@ def main (args : List String) : IO UInt32 := do
       let lines := match suite with
         | "valve" => genValve seed n
         | "gs3" => genGs3 seed n
+        | "jc2m" => genJc2m seed n
         | _ => []
       for l in lines do IO.println l
       return 0
